@@ -513,6 +513,7 @@ class Result:
         self.t0 = time.time()
         self.violations = []     # (what, replay_path)
         self.known = []
+        # states / transitions: distinct and generated states of the design-level TLC model-checking runs of this check
         self.cov = {'evaluations': 0, 'distinct_nontrivial': 0, 'rule': '', 'samples': [], 'states': 0,
                     'transitions': 0, 'traces_validated_against_impl': 0, 'exhaustive': False}
         self.assumptions = []
